@@ -1,8 +1,5 @@
 """Properties that contract-based deductive verification cannot decide here (DESIGN.md section 6)."""
 NOT_APPLICABLE = {
-    "C08": "quantifies over schedules of a budget predicate; the code realising it (remove_inputs/insert_outputs/ingest_block_continue, UtxosDelta, "
-           "reverting readers) calls a Box<dyn FnMut()->bool>, iterates with enumerate().skip() and keeps state in StableBTreeMaps + entry-API maps: "
-           "Verus rejects these constructs, Kani ICEs on any reachable ic-stable-structures type, the heartbeat is an async fn. No contract within reach can express it.",
     "C09": "crash-point quantifier over pre_upgrade/post_upgrade, i.e. ciborium + derived/hand-written serde visitors and re-attached stable memory; "
            "neither tool reads serde-generic code and assuming the round trip would assume the property.",
 }
